@@ -159,8 +159,8 @@ impl Property for Combinators {
     }
     fn cases(&self, tier: Tier) -> u64 {
         match self.0 {
-            "lazy" | "stack" => tier.pick(8_000, 200_000),
-            _ => tier.pick(18_000, 500_000),
+            "lazy" | "stack" => tier.pick(8_000, 120_000),
+            _ => tier.pick(18_000, 300_000),
         }
     }
     fn strategy(&self, _: &Ctx) -> BoxedStrategy<CombCase> {
